@@ -1,9 +1,11 @@
-import NfcVerif.Lemmas.IsoDepV2Live
+import NfcVerif.Lemmas.IsoDepV2Same
+import NfcVerif.Lemmas.IsoDepV2C08
 /-!
 # C12 - ISO-DEP exchanges each APDU exactly once or reports a tag error
 
 Statements; the invariant proofs are in `Lemmas/IsoDepV2.lean` (safety), `Lemmas/IsoDepV2Term.lean` (termination
-against every card), `Lemmas/IsoDepV2Live.lean` (absorbed faults).  Model: `Model/IsoDepV2.lean` - `exchange` is
+against every card), `Lemmas/IsoDepV2Live.lean` (absorbed faults), `Lemmas/IsoDepV2Same.lean` (repaired = as found against
+rule-abiding cards).  Model: `Model/IsoDepV2.lean` - `exchange` is
 `IsoDepInitiator.exchange` with the repairs of `fixes/C12` (S(WTX) answered inside the retry loops, no further command
 after an unrecoverable error) and of `fixes/C08/0010 - 0012` (endless retransmissions after R(ACK) cut off, empty / oversized
 chained response refused, S(WTX) multiplier checked and the granted waiting time limited); `isoPeer cfg` is an ISO/IEC
@@ -335,6 +337,38 @@ I-block is retransmitted at count 3 and its answer is lost - `Type4TagCommandErr
 theorem isodep_absorbs_bound_tight :
     (exchange (isoPeer ⟨8, 0, 0, 0, 3, fun n c => c ++ [n, 0x90, 0]⟩) 14 { pni := 0, miu := 13, nNak := 2, nAck := 2, wlim := 59 }
       [1, 2] ⟨Card.init, [.l, .d, .d, .d, .l], []⟩).2.2 = .error (.tagCmd TIMEOUT_ERROR) := by decide
+
+/-- **A repair must not change behaviour against rule-abiding cards.**  Against the ISO/IEC 14443-4 card within `CardOk`
+(S(WTX) multiplier 1..59, at most `W` requests per block with `W * WTXM ≤ max_wtxm_sum`, non-empty chained blocks,
+response of at most 65539 octets), for every fault script, command and session state, the repaired `exchange` (with
+`fixes/C08/0010 - 0012`) does exactly what the `exchange` of `Model/IsoDep.lean` (the loops before those repairs) does:
+the same blocks in the same order, the same card state, the same response or error, the same block number and error
+flag.  In particular the retransmission after R(ACK) is never refused (it is due at count `n_retry + 1` at the latest). -/
+theorem isodep_repairs_invisible (cfg : CardCfg) (W F : Nat) (pcd : Pcd) (cmd : Bytes) (w : World Card)
+    (hs : SessInv pcd w.card) (hm : 0 < pcd.miu) (hcmd : cmd ≠ []) (hcard : CardOk cfg W pcd cmd w) (hF : W + 1 ≤ F) :
+    exchange (isoPeer cfg) F pcd cmd w = liftX pcd.wlim (IsoDep.exchange (isoPeer cfg) F pcd.base cmd w) := by
+  obtain ⟨h1, h2, h3, h4, h5, h6, h7, h8⟩ := hcard
+  exact exchange_same cfg W F pcd cmd w hm hcmd hs.1 hs.2 h1 h2 h3 h4 ⟨h5, h6⟩ h7 h8 hF
+
+/-- command and response chained, S(WTX) before every card block, five faults: block for block the same -/
+example :
+    let a := exchange (isoPeer ⟨2, 1, 1, 1, 3, fun n c => c ++ [n, 0x90, 0]⟩) 20 { pni := 0, miu := 2, nNak := 5, nAck := 5, wlim := 9 }
+      [1, 2, 3, 4, 5] ⟨Card.init, [.d, .l, .d, .c, .d, .d, .e, .d, .d, .d, .l], []⟩
+    let b := liftX 9 (IsoDep.exchange (isoPeer ⟨2, 1, 1, 1, 3, fun n c => c ++ [n, 0x90, 0]⟩) 20 { pni := 0, miu := 2, nNak := 5, nAck := 5 }
+      [1, 2, 3, 4, 5] ⟨Card.init, [.d, .l, .d, .c, .d, .d, .e, .d, .d, .d, .l], []⟩)
+    a.1.trace = b.1.trace ∧ a.1.card = b.1.card ∧ a.2 = b.2 ∧ a.1.trace.length = 17 := by decide
+
+/-- **One initiator for C12, C08 and the source translation.**  `IsoDepR.exchange` of `Model/IsoDepC08.lean` with the three
+repairs switched on - the function the adversarial-card theorems of C08 are about and the function the regenerated
+decision logic of `IsoDepInitiator` (function bridge, group IsoSm) is proved equal to - is the `exchange` of this file's
+model, for every card, fuel, reader state, command and world. -/
+theorem isodep_same_as_c08_model {σ : Type} (P : Peer σ) (F : Nat) (pcd : Pcd) (cmd : Bytes) (w : World σ) :
+    ((IsoDepR.exchange P (c08Cfg pcd.wlim F) pcd.toBase cmd w).1,
+     Pcd.withBase (IsoDepR.exchange P (c08Cfg pcd.wlim F) pcd.toBase cmd w).2.1 pcd.wlim,
+     (IsoDepR.exchange P (c08Cfg pcd.wlim F) pcd.toBase cmd w).2.2) = exchange P F pcd cmd w :=
+  exchange_c08 P F pcd cmd w
+
+example : (c08Cfg 59 1000).fx = IsoDepR.Fix.all ∧ (c08Cfg 59 1000).lim = 59 := by decide
 
 /-- **Block bound.** With `miu = FSC - 3` every block handed to the reader during the exchange - I-blocks,
 retransmitted I-blocks, R(ACK), R(NAK) and S(WTX) responses - is at most `FSC - 2` octets, i.e. fits the card's frame
